@@ -97,6 +97,9 @@ static const cfg_t cfgs[] = {
       { { K_US, D_1, -1 }, { K_US, D_NONE, -1 } }, K_X, { { A_SIG, -1 } } },
     { "US:D1 + US:D2 | US: - (pool shared by 2 streams)", 0, 2,
       { { K_US, D_1, -1 }, { K_US, D_2, -1 } }, K_US, { { A_END, -1 } } },
+    { "US:none + US:none | X: bcast (pool shared by 2 streams; both re-lock at once)",
+      0, 2, { { K_US, D_NONE, -1 }, { K_US, D_NONE, -1 } }, K_X,
+      { { A_BCAST, -1 } } },
 };
 
 /* ---- event log (appended under M) */
